@@ -175,13 +175,14 @@ fn perm_check(tables: &Tables, stmt_text: &str, si: usize, hist: &[u8]) -> (Vec<
     (out, nontrivial, oh)
 }
 
-const BIG_DEF: &str = "CREATE TABLE g(line = '^k=([a-z]+) v=(-?[0-9]+)$', line[1] => k TEXT, line[2] => v INT);";
-const BIG_STMTS: [&str; 4] = ["SELECT k, COUNT(*), SUM(v), AVG(v), STDDEV(v), VARIANCE(v) FROM g GROUP BY k", "SELECT STDDEV(v), VARIANCE(v), PERCENTILE(v, 0.5) FROM g", "SELECT k, MIN(v), MAX(v), COUNT(DISTINCT v) FROM g GROUP BY k", "SELECT VARIANCE(v) FROM g WHERE k = 'a'"];
+const BIG_DEF: &str = "CREATE TABLE g(line = '^k=([a-zA-Z]+) v=(-?[0-9]+)$', line[1] => k TEXT, line[2] => v INT);";
+const BIG_STMTS: [&str; 4] = ["SELECT k, COUNT(*), SUM(v), AVG(v), STDDEV(v), VARIANCE(v) FROM g GROUP BY k", "SELECT STDDEV(v), VARIANCE(v), PERCENTILE(v, 0.5) FROM g", "SELECT k, MIN(v), MAX(v), COUNT(DISTINCT v) FROM g GROUP BY k", "SELECT VARIANCE(v) FROM g WHERE k != 'zz'"];
 
 fn big_lines() -> Vec<&'static str> {
     // INT values whose squares add up beyond 2^53 (a REAL accumulator would round) but stay inside the INT range
     // (found by search: summing these squares as doubles gives 5 different totals over the 5040 orders)
-    vec!["k=a v=446220853", "k=a v=-874188973", "k=a v=200751796", "k=a v=-271988205", "k=a v=548906293", "k=a v=1042484889", "k=a v=1386865235"]
+    // keys that differ only in letter case are different groups
+    vec!["k=a v=446220853", "k=A v=-874188973", "k=a v=200751796", "k=b v=-271988205", "k=B v=548906293", "k=A v=1042484889", "k=a v=1386865235"]
 }
 
 /// every permutation of the 7 large-INT lines against the identity order, exact comparison (INT inputs)
@@ -341,6 +342,55 @@ pub fn run(ctx: &Ctx) -> i32 {
         });
         col.layer("large INT values (all permutations)", done, complete, json!({"lines": big_lines(), "statements": BIG_STMTS}));
     }
+    // the command line program over several files (also the same file named twice, in both orders): what it prints is
+    // what the batch executor prints over the same sequence of contents
+    {
+        let dir = sut::tmp_dir();
+        let defp = format!("{}/c15_def_{}.txt", dir, std::process::id());
+        std::fs::write(&defp, JDEF).unwrap();
+        let al = jlines();
+        let fa = format!("{}\n{}\n{}\n", al[0], al[2], al[1]);
+        let fb = format!("{}\n{}\n", al[1], al[4]);
+        let created = sut::TempFiles::new(&[fa.as_bytes(), fb.as_bytes()]);
+        let text = "SELECT k, COUNT(*), SUM(v), MIN(s), MAX(r) FROM t GROUP BY k";
+        let st = sut::parse(text).unwrap();
+        let mut nc = 0u64;
+        for order in [vec![0usize, 1], vec![1, 0], vec![0, 0], vec![1, 1], vec![0, 1, 0], vec![1, 0, 0, 1]] {
+            let mut args: Vec<&str> = vec!["-d", &defp];
+            for i in &order {
+                args.push(&created.paths[*i]);
+            }
+            args.extend(["--format", "json", "-c", text]);
+            let got = match sut::run_cli(&args) {
+                Some(g) => g,
+                None => {
+                    col.note("CLI binary not built: command-line layer skipped".into());
+                    break;
+                }
+            };
+            let contents: Vec<&[u8]> = order.iter().map(|i| if *i == 0 { fa.as_bytes() } else { fb.as_bytes() }).collect();
+            let want = match sut::run_files(&tables, &st, &contents, sut::FileRunOpts::default()) {
+                Outcome::Ok(fr) => fr.printed.iter().filter(|l| !l.is_empty()).cloned().collect::<Vec<_>>(),
+                _ => continue,
+            };
+            nc += 1;
+            col.eval(1);
+            col.nontrivial(h64(&("cli", &order)));
+            let out: Vec<String> = got.0.iter().filter(|l| !l.is_empty()).cloned().collect();
+            if out != want {
+                col.fail(fail(
+                    format!("cli-files:{}", if order.windows(2).any(|w| w[0] == w[1]) || order.len() > 2 { "file-named-twice" } else { "two-files" }),
+                    format!("sqlgrep over files {:?} (0 = a.log, 1 = b.log) prints {:?}, the batch executor over the same contents prints {:?}", order, out, want),
+                    json!({"law": "cli", "order": order, "history": []}),
+                    json!(want),
+                    json!(out),
+                    order.len() as u64,
+                ));
+            }
+        }
+        std::fs::remove_file(&defp).ok();
+        col.layer("command line program over several files", nc, true, json!({"orders": ["a b", "b a", "a a", "b b", "a b a", "b a a b"]}));
+    }
     // long inputs: (a) line boundaries aligned with the reader's 8192-byte buffer, (b) more distinct values per group than
     // any small-collection optimisation would hold; the result must not depend on alignment, order or rotation
     {
@@ -433,6 +483,10 @@ pub fn replay(case: &J) -> Vec<Failure> {
     let hist: Vec<u8> = case["history"].as_array().unwrap().iter().map(|x| x.as_u64().unwrap() as u8).collect();
     match case["law"].as_str() {
         Some("perm") => perm_check(&tables, case["statement"].as_str().unwrap(), case["stmt"].as_u64().unwrap() as usize, &hist).0,
+        Some("cli") => {
+            println!("note: command-line cases are replayed by re-running `./check C15 quick`");
+            vec![]
+        }
         Some("big") => {
             let perm: Vec<usize> = case["perm"].as_array().unwrap().iter().map(|x| x.as_u64().unwrap() as usize).collect();
             big_case(&sut::make_tables(BIG_DEF).unwrap(), case["stmt"].as_u64().unwrap() as usize, &perm)
